@@ -415,7 +415,30 @@ let rb_case toks =
    | None -> ());
   let s = Buffer.contents b in s ^ " # " ^ s
 
-let dispatch : (string * (string list -> string)) list ref = ref [ ("ops", ops_case); ("ntt", ntt_case); ("expr", expr_case); ("crt", crt_case); ("set", set_case); ("serial", serial_case); ("rb", rb_case) ]
+(* ------------------------------------------------------------------ C13: random byte stream *)
+let prng_case toks =
+  match toks with
+  | ks :: lens ->
+      let ks = int_of_string ks in
+      let oskey = List.init 32 (fun i -> czi ((ks + 7 * i + 1) land 255)) in
+      let (s', outs) = M.run_hist oskey M.g0 (List.map (fun l -> nat_of_int (int_of_string l)) lens) in
+      let b = Buffer.create 256 in
+      List.iter (fun o ->
+          let bytes = List.map (fun z -> Z.to_int (zz_of_cz z)) o in
+          let len = List.length bytes in
+          if len = 0 then Buffer.add_string b "-"
+          else if len <= 96 then List.iter (fun x -> Buffer.add_string b (Printf.sprintf "%02x" x)) bytes
+          else begin
+            let h = ref (Z.of_string "1469598103934665603") and m64 = Z.pred (Z.shift_left Z.one 64) in
+            List.iter (fun x -> h := Z.logand (Z.mul (Z.logxor !h (Z.of_int x)) (Z.of_string "1099511628211")) m64) bytes;
+            Buffer.add_string b ("h" ^ Z.to_string !h)
+          end;
+          Buffer.add_string b " ") outs;
+      Buffer.add_string b (Printf.sprintf "| seedings=%d" (int_of_nat (M.g_seedings s')));
+      let s = Buffer.contents b in s ^ " # " ^ s
+  | _ -> "badcase"
+
+let dispatch : (string * (string list -> string)) list ref = ref [ ("ops", ops_case); ("ntt", ntt_case); ("expr", expr_case); ("crt", crt_case); ("set", set_case); ("serial", serial_case); ("rb", rb_case); ("prng", prng_case) ]
 
 let () =
   let family = if Array.length Sys.argv > 1 then Sys.argv.(1) else "ops" in
